@@ -26,8 +26,90 @@ ROOT = os.path.dirname(HERE)
 sys.path.insert(0, ROOT)
 sys.path.insert(0, '/repo')
 
-# id pattern (regex, matched with re.match against the case id)  ->  one-line justification
+# Deviations of asn1tools (as pinned in /repo) from X.691 found by this test.
+#
+#   'Q:<name>'   the deviation is reproduced exactly by the sub-class Asn1toolsLike below (the model
+#                with that one decision changed gives asn1tools' octets); the entry is used whenever
+#                the quirk "fired" during the encoding that differs;
+#   'E:<regex>'  asn1tools raises an exception whose text matches, the model encodes;
+#   'C:<regex>'  remaining differences, matched on the case id (re.match).
+#
+# value: one line of justification with the clause.  Entries marked (reading) rest on a reading of
+# the text that other implementations do not all share; see the report.
 KNOWN_DEVIATIONS = {
+    'Q:empty-encoding':
+        '11.1.3/11.1.4: an empty outermost encoding (NULL, single-value INTEGER, empty SEQUENCE ...) is one zero '
+        'octet, hence 11.2: an open type holding it has length 1; asn1tools emits no octet / length 0',
+    'Q:semi-constrained-integer':
+        '13.2.3 + 11.7: INTEGER (lb..MAX) is encoded as the offset from lb in a non-negative-binary-integer; '
+        'asn1tools encodes the value itself as an unconstrained (2\'s complement) whole number',
+    'Q:choice-textual-order':
+        '23.1/23.2 + X.680 8.6: root alternatives are indexed in canonical tag order; asn1tools uses the textual order '
+        '(differs as soon as alternatives carry tags out of order or are untagged under non-automatic tagging)',
+    'Q:enumerated-not-implied-extensible':
+        'X.680 13.4 + X.691 10.3.20 a): EXTENSIBILITY IMPLIED also adds an extension marker to ENUMERATED types; '
+        'asn1tools adds it to SEQUENCE/SET/CHOICE only, so the ENUMERATED extension bit (14.3) is missing',
+    'Q:universalstring-not-known-multiplier':
+        '30.1/30.5: UniversalString is a known-multiplier type (SIZE and FROM are PER-visible, 32-bit characters, no '
+        'length when the size is fixed); asn1tools always sends an unconstrained character count and ignores SIZE/FROM',
+    'Q:string-alignment-by-character-count':
+        '30.5.7: with a length determinant the characters are octet-aligned iff aub x b >= 16 (b = bits per character); '
+        'asn1tools aligns iff aub >= 2 whatever b is (NumericString, FROM alphabets: aligned too early; BMPString (SIZE(0..1)): not aligned)',
+    'Q:pad-before-empty-octet-or-bit-string':
+        '(reading) 11.1.4/16.11/17.8: asn1tools inserts alignment padding before an EMPTY variable-size OCTET STRING / BIT STRING '
+        'but not before an empty character string; the model (and ooh323c, Wireshark) never pads before an empty field',
+    'Q:default-in-extension-addition-encoded':
+        '19.5: a component equal to its DEFAULT value is not encoded (BASIC-PER: shall, for simple types); asn1tools applies '
+        'this to root components and group members but encodes a defaulted extension addition (and sets the extension bit for it)',
+    'Q:normally-small-not-aligned':
+        '11.6.2 + 11.7/11.9.3.6 and 11.9.3.4: for n >= 64 (index of an ENUMERATED/CHOICE addition) resp. n > 64 (number of extension '
+        'additions) the length octet and the value are octet-aligned in the ALIGNED variant; asn1tools does not align them',
+    'Q:real-mantissa-leading-zero':
+        '15 + X.690 11.3.1: mantissa N in the fewest octets; asn1tools prefixes a 00 octet when the top bit of N is set (255.0 -> 80 00 00 ff)',
+    'Q:real-minus-zero':
+        '15 + X.690 8.5.3/8.5.9: minus zero is the single contents octet 43; asn1tools encodes -0.0 as plus zero (no contents)',
+    'Q:enumerated-index-not-aligned':
+        '14.2 + 11.5.7.2/11.5.7.3: the index of an ENUMERATED with 256 or more root items is an octet-aligned one/two-octet field in the '
+        'ALIGNED variant; asn1tools writes it as an unaligned bit-field',
+    'E:String size extension is not yet implemented':
+        '30.4: value outside the root of an extensible SIZE of a known-multiplier string: extension bit 1, then as unconstrained; asn1tools: NotImplementedError',
+    'E:BIT STRING extension is not yet implemented':
+        '16.6: BIT STRING outside the root of an extensible SIZE: extension bit 1, then as unconstrained; asn1tools: NotImplementedError',
+    "E:'<=' not supported between instances of 'NoneType' and 'int'":
+        '13.1 + 13.2.3: INTEGER (0..MAX, ...) is legal (extension bit, then semi-constrained); asn1tools: TypeError',
+    "E:.*Sequence member 'g' not found":
+        '19.2: "g NULL DEFAULT NULL" is an ordinary DEFAULT component (preamble bit, may be absent); asn1tools treats it as mandatory '
+        '(the parser stores the default None)',
+    r'C:edge/int/union/':
+        '10.3.19 (effective constraint of a union is the span of all its elements): INTEGER (1..5 | 10..20) is 1..20; asn1tools uses the '
+        'first element only and produces wrong octets for 10..20',
+    r'C:edge/int/serial-minmax/':
+        '10.3.18 + X.680 51.4: B (MIN..50) with B ::= INTEGER (10..100) has the effective constraint 10..50; asn1tools keeps 10..100',
+    r'C:edge/frag/opentype/':
+        '11.2 + 11.9.3.8: an open type whose contents are exactly 16K octets ends with a zero length octet after the fragment; asn1tools omits it',
+    r'C:edge/from/.*extensible-alphabet':
+        '10.3.10: an extensible permitted-alphabet constraint is not PER-visible (characters of the unconstrained type); asn1tools uses its root',
+    r'C:edge/from/bmp-low/per':
+        '30.5.4: no re-indexing when the largest permitted character value fits in B bits (BMPString FROM("a".."z"), ALIGNED: 122 <= 255); asn1tools re-indexes',
+    r'C:edge/from/ref-(size|from)/':
+        '10.3.18: a SIZE / FROM constraint applied to a reference to a constrained character string type is PER-visible; asn1tools ignores it',
+    r'C:edge/from/NumericString\(FROM.*/per':
+        '30.5.4: the index is the position in the EFFECTIVE permitted alphabet; asn1tools (ALIGNED only) uses the position in the full NumericString alphabet',
+    r'C:edge/from/numeric-digits/per':
+        '30.5.4: as above (NumericString (FROM("0".."9")): "0" is index 0, asn1tools sends 1)',
+    r'C:edge/from/[A-Za-z0-9]+\(FROM\("5"\)\).*/per':
+        '(reading) 30.5.2: a one-character alphabet needs B = 0 bits and B2 = "the smallest power of 2 >= B" = 1 bit in the ALIGNED variant; asn1tools uses 0 bits',
+    r'C:edge/seq/group-null/':
+        '19.9: an extension addition group is present when one of its components is; asn1tools treats a group whose only present components '
+        'are NULL / empty as absent',
+    r'C:edge/seq/default-(real|oid)/':
+        '19.5: REAL / OBJECT IDENTIFIER components equal to their DEFAULT are not encoded (simple types); asn1tools never recognises these defaults',
+}
+# differences that are NOT deviations: BASIC-PER leaves the choice to the sender and the model takes the
+# CANONICAL-PER form (case id regex -> reason)
+SENDERS_OPTION = {
+    r'edge/seq/default-struct/':
+        '19.5: a structured component equal to its DEFAULT may be encoded or omitted in BASIC-PER (asn1tools encodes SEQUENCE values)',
 }
 
 VERBOSE = '-v' in sys.argv
@@ -78,17 +160,133 @@ def use_fast_buffer(on):
     x691.BitBuf = FastBitBuf if on else BitBuf
 
 
+class Asn1toolsLike(object):
+    """the model with the decisions listed in KNOWN_DEVIATIONS ('Q:' entries) taken the way asn1tools
+    takes them; `fired` collects the quirks that changed something in the current encoding"""
+
+    @staticmethod
+    def make(parsed, aligned, numeric_enums):
+        from models import x691
+
+        class Like(x691._Per):
+            def __init__(self):
+                x691._Per.__init__(self, parsed, aligned, numeric_enums)
+                self.fired = set()
+
+            def complete(self, buf):
+                if len(buf) == 0:
+                    self.fired.add('empty-encoding')
+                    return buf
+                return x691._Per.complete(self, buf)
+
+            def int_semi_constrained(self, buf, value, lb):
+                self.fired.add('semi-constrained-integer')
+                self.unconstrained(buf, value)
+
+            def choice_root_order(self, btd, bmod, root):
+                std = x691._Per.choice_root_order(self, btd, bmod, root)
+                if [m['name'] for m in std] != [m['name'] for m in root]:
+                    self.fired.add('choice-textual-order')
+                return list(root)
+
+            def extension_marker(self, btd, module, key):
+                std = x691._Per.extension_marker(self, btd, module, key)
+                if key == 'values':
+                    q = None in btd[key]
+                    if q != std:
+                        self.fired.add('enumerated-not-implied-extensible')
+                    return q
+                return std
+
+            def enc_known_multiplier(self, buf, value, chain, t):
+                if t != 'UniversalString':
+                    return x691._Per.enc_known_multiplier(self, buf, value, chain, t)
+                self.fired.add('universalstring-not-known-multiplier')
+
+                def emit(out, a, b):
+                    for c in value[a:b]:
+                        out.uint(ord(c), 32)
+                self.with_length(buf, len(value), 0, None, emit, 'octets')
+
+            def kmstring_aligned(self, fixed, ub, b):
+                std = x691._Per.kmstring_aligned(self, fixed, ub, b)
+                q = std if (fixed or ub is None) else ub >= 2
+                if q != std and self.aligned:
+                    self.fired.add('string-alignment-by-character-count')
+                return q
+
+            def align_field(self, buf, nitems, kind):
+                if kind in ('octets', 'bits') and nitems == 0:
+                    if self.aligned and len(buf) % 8:
+                        self.fired.add('pad-before-empty-octet-or-bit-string')
+                    self.align(buf)
+                else:
+                    x691._Per.align_field(self, buf, nitems, kind)
+
+            def omit_default(self, v, m, module, addition):
+                std = x691._Per.omit_default(self, v, m, module, addition)
+                if addition is True:
+                    if std:
+                        self.fired.add('default-in-extension-addition-encoded')
+                    return False
+                return std
+
+            def normally_small(self, buf, n):
+                if n <= 63:
+                    return x691._Per.normally_small(self, buf, n)
+                if self.aligned:
+                    self.fired.add('normally-small-not-aligned')
+                k = self.nn_octets(n)
+                buf.bit(1)
+                buf.uint(k, 8)
+                buf.uint(n, 8 * k)
+
+            def normally_small_length(self, buf, n):
+                if n <= 64 or n > 127:
+                    return x691._Per.normally_small_length(self, buf, n)
+                if self.aligned:
+                    self.fired.add('normally-small-not-aligned')
+                buf.bit(1)
+                buf.uint(n, 8)
+
+            def real_octets(self, value):
+                import math
+                if value == 0 and math.copysign(1, value) < 0:
+                    self.fired.add('real-minus-zero')
+                    return []
+                octs = x691.real_contents(value)
+                if len(octs) > 1 and octs[0] & 0x80 and (octs[0] & 3) != 3:
+                    elen = (octs[0] & 3) + 1
+                    if octs[1 + elen] & 0x80:
+                        self.fired.add('real-mantissa-leading-zero')
+                        octs = octs[:1 + elen] + [0] + octs[1 + elen:]
+                return octs
+
+            def enum_index(self, buf, index, count):
+                if self.aligned and count >= 256:
+                    self.fired.add('enumerated-index-not-aligned')
+                buf.uint(index, (count - 1).bit_length())
+        return Like()
+
+
 class Tally:
     def __init__(self):
         self.same = 0
-        self.diffs = []          # (case id, description)
         self.both_reject = 0
         self.skipped = {}        # reason -> count
-        self.lib_rejects = []    # asn1tools raises, model encodes
-        self.model_rejects = []  # model raises EncodeError, asn1tools encodes
+        self.known = {}          # KNOWN_DEVIATIONS key -> [(case, text)]
+        self.option = {}         # SENDERS_OPTION key -> [(case, text)]
+        self.unexpected = []     # (kind, case, text)
 
     def skip(self, why):
         self.skipped[why] = self.skipped.get(why, 0) + 1
+
+
+def _match(table, prefix, case):
+    for pat in table:
+        if pat.startswith(prefix) and re.match(pat[len(prefix):], case):
+            return pat
+    return None
 
 
 def compare(tally, case, parsed, module, type_name, value, codec, lib_encode, numeric_enums=False):
@@ -110,18 +308,45 @@ def compare(tally, case, parsed, module, type_name, value, codec, lib_encode, nu
         tally.both_reject += 1
         return
     if lib_err is not None:
-        tally.lib_rejects.append((case, '%s %s value %r: asn1tools raises %s: %s; model %s'
-                                  % (codec, type_name, value, type(lib_err).__name__, str(lib_err)[:80], got.hex())))
+        text = '%s %s value %s: asn1tools raises %s: %s; model %s' % (
+            codec, type_name, _short(value), type(lib_err).__name__, str(lib_err)[:80], _hex(got))
+        for pat in KNOWN_DEVIATIONS:
+            if pat.startswith('E:') and re.match(pat[2:], str(lib_err)):
+                tally.known.setdefault(pat, []).append((case, text))
+                return
+        tally.unexpected.append(('ASN1TOOLS-REJECTS', case, text))
         return
     if err is not None:
-        tally.model_rejects.append((case, '%s %s value %r: model rejects (%s); asn1tools %s'
-                                    % (codec, type_name, value, err, want.hex())))
+        tally.unexpected.append(('MODEL-REJECTS', case, '%s %s value %s: model rejects (%s); asn1tools %s'
+                                 % (codec, type_name, _short(value), err, _hex(want))))
         return
     if got == want:
         tally.same += 1
-    else:
-        tally.diffs.append((case, '%s %s value %s\n      model     %s\n      asn1tools %s'
-                            % (codec, type_name, _short(value), _hex(got), _hex(want))))
+        return
+    text = '%s %s value %s\n          model     %s\n          asn1tools %s' % (codec, type_name, _short(value), _hex(got), _hex(want))
+    # is the difference exactly the sum of the emulated quirks?
+    like = Asn1toolsLike.make(parsed, codec == 'per', numeric_enums)
+    try:
+        buf = x691.BitBuf()
+        like.encode_type(buf, {'type': type_name}, module, value)
+        emulated = like.complete(buf).concrete()
+    except Exception as e:                      # noqa
+        emulated = None
+    if emulated == want and like.fired:
+        for q in sorted(like.fired):
+            tally.known.setdefault('Q:' + q, []).append((case, text))
+        return
+    pat = _match(KNOWN_DEVIATIONS, 'C:', case)
+    if pat:
+        tally.known.setdefault(pat, []).append((case, text))
+        return
+    pat = _match(SENDERS_OPTION, '', case)
+    if pat:
+        tally.option.setdefault(pat, []).append((case, text))
+        return
+    if emulated is not None and emulated != want and like.fired:
+        text += '\n          emulation %s (quirks %s)' % (_hex(emulated), sorted(like.fired))
+    tally.unexpected.append(('DIFF', case, text))
 
 
 def _short(v):
@@ -154,7 +379,14 @@ def harvest_repo_tests(tally):
         out = orig_encode(self, name, data, *a, **k)
         info = getattr(self, '_x', None)
         if info is not None and info[1] in ('per', 'uper'):
-            records.append((self, info, name, copy.deepcopy(data), bytes(out)))
+            test = '?'
+            f = sys._getframe(1)
+            while f is not None:
+                if f.f_code.co_name.startswith('test_'):
+                    test = f.f_code.co_name
+                    break
+                f = f.f_back
+            records.append((self, info, name, copy.deepcopy(data), bytes(out), test))
         return out
 
     compiler.compile_dict = compile_dict
@@ -181,7 +413,7 @@ def harvest_repo_tests(tally):
     print('repo tests: ran %d (failures %d, errors %d), %d PER/UPER encode calls recorded'
           % (result.testsRun, len(result.failures), len(result.errors), len(records)))
     seen = set()
-    for spec, (parsed, codec, numeric), name, data, out in records:
+    for spec, (parsed, codec, numeric), name, data, out, test in records:
         key = (id(spec), name, repr(data))
         if key in seen:
             continue
@@ -190,7 +422,7 @@ def harvest_repo_tests(tally):
         if len(modules) != 1:
             tally.skip('repo: type name in %d modules' % len(modules))
             continue
-        case = 'repo/%s/%s/%s' % (codec, modules[0], name)
+        case = 'repo/%s/%s/%s' % (codec, test, name)
         compare(tally, case, parsed, modules[0], name, data, codec, lambda: out, numeric)
 
 
@@ -416,16 +648,16 @@ for _c, _ns in (('', (0, 1, 127, 128, 129)), ('(SIZE(0))', (0,)), ('(SIZE(1))', 
     E('octets/%s' % (_c or 'plain'), 'A ::= SEQUENCE { f BOOLEAN, v OCTET STRING %s, g BOOLEAN }' % _c,
       [{'f': True, 'v': _O(n), 'g': True} for n in _ns])
 # 11.9 length determinants: 16K fragmentation
-for _n in (16383, 16384, 16385, 32768, 49152, 65535, 65536, 65537, 81920, 81921, 147456):
+for _n in (16383, 16384, 16385, 32768, 65536, 65537, 81921):
     E('frag/octets-%d' % _n, 'A ::= SEQUENCE { f BOOLEAN, v OCTET STRING }', [{'f': True, 'v': _O(_n)}])
-for _n in (16383, 16384, 16385, 65536, 65537):
+for _n in (16383, 16384, 16385, 65537):
     E('frag/bits-%d' % _n, 'A ::= SEQUENCE { f BOOLEAN, v BIT STRING }', [{'f': True, 'v': _B(_n)}])
     E('frag/seqof-%d' % _n, 'A ::= SEQUENCE { f BOOLEAN, v SEQUENCE OF INTEGER (0..2) }', [{'f': True, 'v': [i % 3 for i in range(_n)]}])
     E('frag/ia5-%d' % _n, 'A ::= SEQUENCE { f BOOLEAN, v IA5String }', [{'f': True, 'v': 'ab' * (_n // 2) + 'c' * (_n % 2)}])
     E('frag/numeric-%d' % _n, 'A ::= SEQUENCE { f BOOLEAN, v NumericString }', [{'f': True, 'v': '12' * (_n // 2) + '3' * (_n % 2)}])
     E('frag/utf8-%d' % _n, 'A ::= SEQUENCE { f BOOLEAN, v UTF8String }', [{'f': True, 'v': 'ab' * (_n // 2) + 'c' * (_n % 2)}])
 E('frag/seqof-size', 'A ::= SEQUENCE { f BOOLEAN, v SEQUENCE (SIZE(0..70000)) OF BOOLEAN }',
-  [{'f': True, 'v': [True] * n} for n in (0, 3, 16384, 70000)])
+  [{'f': True, 'v': [True] * n} for n in (0, 3, 16384, 66000)])
 E('frag/seqof-size64k', 'A ::= SEQUENCE { f BOOLEAN, v SEQUENCE (SIZE(1..65535)) OF BOOLEAN }',
   [{'f': True, 'v': [True] * n} for n in (1, 3, 16384, 65535)])
 E('frag/opentype', 'A ::= SEQUENCE { f BOOLEAN, ..., v OCTET STRING }', [{'f': True, 'v': _O(n)} for n in (0, 125, 126, 127, 16381, 16382, 16383, 70000)])
@@ -447,24 +679,25 @@ for _t, _s in (('IA5String', 'ab'), ('VisibleString', 'xy'), ('PrintableString',
                     ('(SIZE(0..65535))', (0, 3)), ('(SIZE(0..65536))', (0, 3))):
         E('str/%s%s' % (_t, _c), 'A ::= SEQUENCE { f BOOLEAN, v %s %s, g BOOLEAN }' % (_t, _c),
           [{'f': True, 'v': (_s * n)[:n], 'g': True} for n in _ns])
-for _t in ('IA5String', 'VisibleString', 'PrintableString', 'NumericString', 'BMPString', 'UniversalString'):
+for _t in ('IA5String', 'PrintableString', 'NumericString', 'BMPString', 'UniversalString'):
     for _f, _s in (('"5"', '5'), ('"1".."2"', '12'), ('"1".."3"', '123'), ('"1".."4"', '1234'), ('"0".."4"', '01234'),
                    ('"0".."9"', '0189'), ('" " | "0".."9"', ' 09'), ('"0".."8"', '08')):
-        for _c in ('', '(SIZE(2))', '(SIZE(0..3))', '(SIZE(0..15))', '(SIZE(16))', '(SIZE(17))', '(SIZE(0..16))', '(SIZE(5))'):
+        for _c in ('', '(SIZE(2))', '(SIZE(0..3))', '(SIZE(0..15))', '(SIZE(17))', '(SIZE(0..16))'):
             _lo = int(re.findall(r'\d+', _c)[0]) if _c else 0
             _hi = int(re.findall(r'\d+', _c)[-1]) if _c else 6
             E('from/%s(FROM(%s))%s' % (_t, _f, _c), 'A ::= SEQUENCE { f BOOLEAN, v %s (FROM(%s)) %s, g BOOLEAN }' % (_t, _f, _c),
               [{'f': True, 'v': (_s * 20)[:n], 'g': True} for n in sorted({_lo, _hi})])
 E('from/ia5-letters', 'A ::= IA5String (FROM("a".."z" | "A".."Z" | "-."))', ['', 'aZ-.', 'Hello'])
 E('from/ia5-high', 'A ::= IA5String (FROM("p".."z"))', ['pz', 'q'])
-E('from/ia5-128', 'A ::= IA5String (FROM("a".."z", ...))', ['abc'])
+E('from/extensible-alphabet', 'A ::= IA5String (FROM("a".."z", ...))', ['abc'])
 E('from/visible-16', 'A ::= VisibleString (FROM("a".."p"))', ['ap', 'b'])
 E('from/visible-17', 'A ::= VisibleString (FROM("a".."q"))', ['aq', 'b'])
 E('from/bmp-256', 'A ::= BMPString (FROM("Ā".."ǿ"))', ['Āǿ'])
 E('from/bmp-low', 'A ::= BMPString (FROM("a".."z"))', ['az'])
 E('from/bmp-sparse', 'A ::= BMPString (FROM("a" | "中"))', ['a中'])
-E('from/serial', 'A ::= B (SIZE(1..3))\nB ::= IA5String (FROM("a".."d"))', ['a', 'abd'])
-E('from/serial-ext', 'A ::= B (FROM("a".."d"))\nB ::= IA5String (SIZE(1..3, ...))', ['a', 'abd'])
+E('from/ref-size', 'A ::= B (SIZE(1..3))\nB ::= IA5String (FROM("a".."d"))', ['a', 'abd'])
+E('from/ref-from', 'A ::= B (FROM("a".."d"))\nB ::= IA5String (SIZE(1..3))', ['a', 'abd'])
+E('from/ref-from-ext', 'A ::= B (FROM("a".."d"))\nB ::= IA5String (SIZE(1..3, ...))', ['a', 'abd'])
 E('from/numeric-digits', 'A ::= NumericString (FROM("0".."9"))', ['', '0189'])
 E('from/size-ext-alpha', 'A ::= IA5String (FROM("a".."d")) (SIZE(1..2, ...))', ['a', 'ab', 'abc', ''])
 E('str/others', 'A ::= SEQUENCE { f BOOLEAN, u UTF8String (SIZE(2)), g GeneralString, h GraphicString, t TeletexString, o ObjectDescriptor }',
@@ -478,8 +711,10 @@ E('seq/ext-65', 'A ::= SEQUENCE { r BOOLEAN, ..., %s }' % ', '.join('x%d NULL OP
   [{'r': True, 'x0': None}, {'r': True, 'x64': None}])
 E('seq/ext-trailing-absent', 'A ::= SEQUENCE { r BOOLEAN, ..., a INTEGER (0..7), b BOOLEAN, c NULL }',
   [{'r': True, 'a': 1}, {'r': True, 'a': 1, 'b': False}, {'r': True, 'a': 1, 'b': False, 'c': None}, {'r': True}])
-E('seq/ext-group', 'A ::= SEQUENCE { r BOOLEAN, ..., [[ a INTEGER (0..7) OPTIONAL, b BOOLEAN OPTIONAL ]], [[ c NULL, d INTEGER DEFAULT 4 ]], e OCTET STRING (SIZE(0..3)) }',
-  [{'r': True}, {'r': True, 'a': 3}, {'r': True, 'b': True, 'c': None}, {'r': True, 'c': None, 'd': 4}, {'r': True, 'c': None, 'd': 5, 'e': b''},
+E('seq/group-null', 'A ::= SEQUENCE { r BOOLEAN, ..., [[ c NULL, d INTEGER DEFAULT 4 ]], [[ e SEQUENCE { } ]] }',
+  [{'r': True}, {'r': True, 'c': None}, {'r': True, 'c': None, 'd': 4}, {'r': True, 'c': None, 'd': 5}, {'r': True, 'e': {}}])
+E('seq/ext-group', 'A ::= SEQUENCE { r BOOLEAN, ..., [[ a INTEGER (0..7) OPTIONAL, b BOOLEAN OPTIONAL ]], [[ c BOOLEAN, d INTEGER DEFAULT 4 ]], e OCTET STRING (SIZE(0..3)) }',
+  [{'r': True}, {'r': True, 'a': 3}, {'r': True, 'b': True, 'c': True}, {'r': True, 'c': False, 'd': 4}, {'r': True, 'c': True, 'd': 5, 'e': b''},
    {'r': True, 'e': b'\x01\x02\x03'}])
 E('seq/ext-default', 'A ::= SEQUENCE { r BOOLEAN, ..., a INTEGER DEFAULT 3, b BOOLEAN }',
   [{'r': True, 'a': 3}, {'r': True, 'a': 4}, {'r': True, 'a': 3, 'b': True}])
@@ -488,12 +723,14 @@ E('seq/ext-second-marker', 'A ::= SEQUENCE { r BOOLEAN, ..., a INTEGER (0..7), .
 E('seq/opentype-null', 'A ::= SEQUENCE { r BOOLEAN, ..., n NULL, s SEQUENCE {} , i INTEGER (5) }',
   [{'r': True, 'n': None}, {'r': True, 'n': None, 's': {}, 'i': 5}])
 E('seq/opentype-big', 'A ::= SEQUENCE { r BOOLEAN, ..., o OCTET STRING }', [{'r': True, 'o': _O(n)} for n in (0, 126, 127, 128, 300)])
-E('seq/defaults', 'A ::= SEQUENCE { a INTEGER DEFAULT 0, b BOOLEAN DEFAULT FALSE, c ENUMERATED { x, y } DEFAULT y, d OCTET STRING DEFAULT \'0A\'H, '
-  'e IA5String DEFAULT "hi", f BIT STRING DEFAULT \'101\'B, g NULL DEFAULT NULL, h SEQUENCE OF INTEGER DEFAULT {}, i REAL DEFAULT 1.5, '
-  'j BIT STRING { p(0), q(2) } DEFAULT { q }, k OBJECT IDENTIFIER DEFAULT { 1 2 3 } }',
-  [{}, {'a': 0, 'b': False, 'c': 'y', 'd': b'\x0a', 'e': 'hi', 'f': (b'\xa0', 3), 'g': None, 'h': [], 'i': 1.5, 'j': (b'\x20', 3), 'k': '1.2.3'},
-   {'a': 1, 'b': True, 'c': 'x', 'd': b'\x0b', 'e': 'ho', 'f': (b'\xa0', 4), 'g': None, 'h': [1], 'i': 2.5, 'j': (b'\x20', 8), 'k': '1.2.4'},
-   {'j': (b'\xa0', 3), 'f': (b'\xa0', 8)}])
+for _k, _d, _eq, _ne in (('int', 'INTEGER DEFAULT 0', 0, 1), ('bool', 'BOOLEAN DEFAULT FALSE', False, True),
+                         ('enum', 'ENUMERATED { x, y } DEFAULT y', 'y', 'x'), ('octets', "OCTET STRING DEFAULT '0A'H", b'\x0a', b'\x0b'),
+                         ('ia5', 'IA5String DEFAULT "hi"', 'hi', 'ho'), ('bits', "BIT STRING DEFAULT '101'B", (b'\xa0', 3), (b'\xa0', 4)),
+                         ('seqof', 'SEQUENCE OF INTEGER DEFAULT {}', [], [1]), ('real', 'REAL DEFAULT 1.5', 1.5, 2.5),
+                         ('namedbits', 'BIT STRING { p(0), q(2) } DEFAULT { q }', (b'\x20', 3), (b'\xa0', 3)),
+                         ('namedbits-trailing', 'BIT STRING { p(0), q(2) } DEFAULT { q }', (b'\x20', 8), (b'\x20\x80', 9)),
+                         ('oid', 'OBJECT IDENTIFIER DEFAULT { 1 2 3 }', '1.2.3', '1.2.4'), ('null', 'NULL DEFAULT NULL', None, None)):
+    E('seq/default-%s' % _k, 'A ::= SEQUENCE { f BOOLEAN, g %s }' % _d, [{'f': True}, {'f': True, 'g': _eq}, {'f': True, 'g': _ne}])
 E('seq/default-struct', 'A ::= SEQUENCE { s SEQUENCE { x INTEGER DEFAULT 1 } DEFAULT {}, t BOOLEAN }',
   [{'t': True}, {'s': {}, 't': True}, {'s': {'x': 1}, 't': True}, {'s': {'x': 2}, 't': True}])
 E('seq/default-ref', 'A ::= SEQUENCE { b B DEFAULT TRUE, e E DEFAULT two, i I DEFAULT 5 }\nB ::= BOOLEAN\nE ::= ENUMERATED { one, two }\nI ::= INTEGER (0..20)',
@@ -640,63 +877,60 @@ def smoke():
 def main():
     if '--smoke' in sys.argv:
         sys.exit(smoke())
+    import time
     tally = Tally()
     use_fast_buffer('--real-bitbuf' not in sys.argv)
-    import time
     t0 = time.time()
     if '--no-repo' not in sys.argv:
         harvest_repo_tests(tally)
-    print('  [%.0f s]' % (time.time() - t0))
-    run_specs(tally, corpus_specs())
-    print('  [%.0f s]' % (time.time() - t0))
-    run_edge(tally)
-    print('  [%.0f s]' % (time.time() - t0))
-    if '--real-bitbuf' not in sys.argv:
-        # the same corpus pass with the framework's BitBuf: must give the same tallies
+    if '--no-corpus' not in sys.argv:
+        run_specs(tally, corpus_specs())
+    if '--no-edge' not in sys.argv:
+        run_edge(tally)
+    if '--real-bitbuf' not in sys.argv and '--no-corpus' not in sys.argv:
+        # the same corpus pass with the framework's BitBuf: must give the same results
         t2, t3 = Tally(), Tally()
         run_specs(t3, corpus_specs(), per_spec=4, seed=2)
         use_fast_buffer(False)
         run_specs(t2, corpus_specs(), per_spec=4, seed=2)
-        same = (t2.same, sorted(t2.diffs), sorted(t2.model_rejects)) == (t3.same, sorted(t3.diffs), sorted(t3.model_rejects))
-        print('lib.bits.BitBuf vs fast test buffer on the corpus: %s' % ('agree' if same else 'DISAGREE'))
-        if not same:
-            tally.diffs.append(('buffer', 'lib.bits.BitBuf and the test buffer give different results'))
+        use_fast_buffer(True)
 
-    def known(case):
-        for pat in KNOWN_DEVIATIONS:
-            if re.match(pat, case):
-                return pat
-        return None
-    unexpected = []
-    hit = {}
-    for kind, items in (('DIFF', tally.diffs), ('ASN1TOOLS-REJECTS', tally.lib_rejects), ('MODEL-REJECTS', tally.model_rejects)):
-        for case, text in items:
-            k = known(case)
-            if k is None:
-                unexpected.append((kind, case, text))
-            else:
-                hit.setdefault(k, []).append((kind, case, text))
-    print('identical encodings: %d; both reject: %d' % (tally.same, tally.both_reject))
+        def digest(t):
+            return (t.same, sorted((k, len(v)) for k, v in t.known.items()), sorted(t.unexpected))
+        same = digest(t2) == digest(t3)
+        print('lib.bits.BitBuf vs fast test buffer on the corpus (%d encodings): %s'
+              % (t2.same, 'agree' if same else 'DISAGREE'))
+        if not same:
+            tally.unexpected.append(('BUFFER', 'buffer', 'lib.bits.BitBuf and the test buffer give different results'))
+    print('[%.0f s]' % (time.time() - t0))
+    print('identical encodings: %d; rejected by both: %d' % (tally.same, tally.both_reject))
     for why, n in sorted(tally.skipped.items()):
         print('skipped (%s): %d' % (why, n))
-    print('differences covered by KNOWN_DEVIATIONS: %d' % sum(len(v) for v in hit.values()))
-    for k, items in hit.items():
-        print('  %-40s %4d  %s' % (k, len(items), KNOWN_DEVIATIONS[k]))
+    print('differences explained by KNOWN_DEVIATIONS: %d' % sum(len(v) for v in tally.known.values()))
+    for k in KNOWN_DEVIATIONS:
+        items = tally.known.get(k, [])
+        print('  %-50s %5d  %s' % (k, len(items), KNOWN_DEVIATIONS[k]))
         if VERBOSE:
-            for kind, case, text in items[:3]:
-                print('      [%s] %s: %s' % (kind, case, text))
-    unused = [k for k in KNOWN_DEVIATIONS if k not in hit]
+            seen = set()
+            for case, text in items:
+                if case not in seen and len(seen) < 3:
+                    seen.add(case)
+                    print('        %s: %s' % (case, text))
+    unused = [k for k in KNOWN_DEVIATIONS if k not in tally.known]
     if unused:
         print('KNOWN_DEVIATIONS entries that matched nothing: %s' % unused)
-    print('unexpected differences: %d' % len(unexpected))
+    print('differences within a sender\'s option (not deviations): %d' % sum(len(v) for v in tally.option.values()))
+    for k, items in tally.option.items():
+        print('  %-50s %5d  %s' % (k, len(items), SENDERS_OPTION[k]))
+    print('unexpected differences: %d' % len(tally.unexpected))
     grouped = {}
-    for kind, case, text in unexpected:
+    for kind, case, text in tally.unexpected:
         grouped.setdefault((kind, case), []).append(text)
     for (kind, case), texts in grouped.items():
         print('  [%s] %s (%d):' % (kind, case, len(texts)))
         for text in texts[:(50 if VERBOSE else 2)]:
             print('      ' + text)
-    rc = 1 if unexpected else 0
+    rc = 1 if tally.unexpected else 0
     if '--no-smoke' not in sys.argv:
         r = subprocess.run([sys.executable, os.path.abspath(__file__), '--smoke'], cwd=ROOT)
         rc = rc or r.returncode
